@@ -85,6 +85,15 @@ Record accst := mkAcc { a_info : info; a_alt : Z }.
 Definition acc_init (k : nkind) (first last : info) : accst :=
   mkAcc (mkInfo k (i_start first) (i_end last) (i_worker first) 0 0 nc_zero ec_zero 1 1 0) 0.
 
+(** The library exists in two variants as far as edge counting goes (notes/C18.md):
+    [oc = false]: the tree as found - [case dr_dag_node_kind_other: break;], no other_cont edge is
+                  ever counted in logical_edge_counts;
+    [oc = true] : with the proposed repair - an [other] interval that has a successor counts one
+                  other_cont edge.
+    The check probes which variant the library under test is and runs the matching branch. *)
+Section Variant.
+Variable oc : bool.
+
 (** one iteration of the loop over the subgraphs; [hasnext] = [x->next != 0] *)
 Definition acc_step (hasnext : bool) (st : accst) (x : node) : accst :=
   let s := a_info st in
@@ -109,7 +118,8 @@ Definition acc_step (hasnext : bool) (st : accst) (x : node) : accst :=
       let edges1 :=
         match i_kind xi with
         | KSection => if hasnext then ec_add edges (mkEC (i_nchild xi) 0 0 1 0) else edges
-        | _ => edges      (* wait, end, other: no edge is counted (also none for other -> next) *)
+        | KOther => if oc && hasnext then ec_add edges (mkEC 0 0 0 0 1) else edges
+        | _ => edges      (* wait, end: no edge is counted *)
         end in
       mkAcc (mkInfo (i_kind s) (i_start s) (i_end s) worker t1 tinf nodes edges1 cur mn (i_nchild s))
             (a_alt st)
@@ -132,6 +142,8 @@ Definition accumulate (k : nkind) (ch : list node) : info :=
   | [] => mkInfo k 0 0 0 0 0 nc_zero ec_zero 1 1 0
   | first :: _ => acc_finish (acc_loop (acc_init k (ninfo first) (ninfo (last ch first))) ch)
   end.
+
+End Variant.
 
 (** ** contraction *)
 (** dr_collapse_subgraph: free the descendants, keep the summary *)
@@ -213,6 +225,7 @@ End Contract.
 
 (** ** the recorder *)
 Section Record.
+  Variable oc : bool.
   (** the summariser applied when the subgraph at position [p] of the tree closes *)
   Variable summ : list nat -> node -> node.
 
@@ -232,10 +245,10 @@ Section Record.
     | Create l c => NCreate (leaf_info KCreate l) (record (p ++ [0%nat]) c)
     | Sect items w =>
         let ch := record_items record p 0%nat items ++ [NLeaf (leaf_info KWait w)] in
-        summ p (NSub (accumulate KSection ch) ch)
+        summ p (NSub (accumulate oc KSection ch) ch)
     | Task items e =>
         let ch := record_items record p 0%nat items ++ [NLeaf (leaf_info KEnd e)] in
-        summ p (NSub (accumulate KTask ch) ch)
+        summ p (NSub (accumulate oc KTask ch) ch)
     end.
 End Record.
 
@@ -245,7 +258,8 @@ Definition summ_setting (st : setting) : list nat -> node -> node := fun _ n => 
 Definition summ_choice (ch : list nat -> list nat -> bool) : list nat -> node -> node :=
   fun p n => contract (ch p) [] n.
 
-Definition root_info (summ : list nat -> node -> node) (t : tree) : info := ninfo (record summ [] t).
+Definition root_info (oc : bool) (summ : list nat -> node -> node) (t : tree) : info :=
+  ninfo (record oc summ [] t).
 
 (** number of materialised nodes of an in-memory DAG (what dr_check_cur_node_count walks) *)
 Fixpoint materialized (n : node) : Z :=
@@ -254,3 +268,72 @@ Fixpoint materialized (n : node) : Z :=
   | NCreate _ c => 1 + materialized c
   | NSub _ ch => 1 + zsum (map materialized ch)
   end.
+
+(** ** the generated report (.stat) *)
+(** gen_stat.c dr_calc_inner_delay: [total_t_1] = sum of t_1 over the intervals and the contracted
+    nodes of the dumped DAG (this is the "work (T1)" line) *)
+Fixpoint stat_work (n : node) : Z :=
+  match n with
+  | NLeaf i => i_t1 i
+  | NCreate i c => i_t1 i + stat_work c
+  | NSub i [] => i_t1 i
+  | NSub i ch => zsum (map stat_work ch)
+  end.
+
+(** the edge x -> next sibling that dr_pi_dag_enum_edges lists (its kind is the in_edge_kind of the
+    first interval of the sibling, which is determined by how x ended) *)
+Definition cont_edge (x : node) : ecounts :=
+  match x with
+  | NCreate _ _ => mkEC 0 0 1 0 0
+  | _ => match i_kind (ninfo x) with
+         | KOther => mkEC 0 0 0 0 1
+         | KSection | KWait => mkEC 0 0 0 1 0
+         | _ => ec_zero
+         end
+  end.
+
+Definition is_create (x : node) : bool := match x with NCreate _ _ => true | _ => false end.
+Definition n_creates (l : list node) : Z := Z.of_nat (length (filter is_create l)).
+
+(** for a materialised section x that has a next sibling: one create edge and one end edge per
+    create_task interval directly in x *)
+Definition sect_create_edges (x : node) : ecounts :=
+  match x with
+  | NSub i (y :: r) =>
+      match i_kind i with
+      | KSection => mkEC (n_creates (y :: r)) (n_creates (y :: r)) 0 0 0
+      | _ => ec_zero
+      end
+  | _ => ec_zero
+  end.
+
+(** gen_stat.c dr_calc_edges, summed over the worker matrix: the logical counts of the contracted
+    nodes plus the edges enumerated by dr_dump.c dr_pi_dag_enum_edges on what is materialised.
+    [fe = false]: the tree as found; [fe = true]: with the proposed repair (a contracted section
+    also contributes the end edges of the tasks created in it, which lead to its successor). *)
+Section Stat.
+  Variable fe : bool.
+  Fixpoint stat_edges (n : node) {struct n} : ecounts :=
+    match n with
+    | NLeaf _ => ec_zero
+    | NCreate _ c => stat_edges c
+    | NSub i [] =>
+        match i_kind i with
+        | KSection => if fe then ec_add (i_edges i) (mkEC (i_nchild i) 0 0 0 0) else i_edges i
+        | _ => i_edges i
+        end
+    | NSub i ch =>
+        let fix go (l : list node) {struct l} : ecounts :=
+            match l with
+            | [] => ec_zero
+            | x :: r =>
+                ec_add (ec_add (stat_edges x)
+                               (match r with
+                                | [] => ec_zero
+                                | _ => ec_add (cont_edge x) (sect_create_edges x)
+                                end))
+                       (go r)
+            end in
+        go ch
+    end.
+End Stat.
